@@ -8,6 +8,7 @@ import GoPipeline.Driver.C18
 import GoPipeline.Driver.C16
 import GoPipeline.Driver.C04
 import GoPipeline.Driver.C10
+import GoPipeline.Driver.Sig
 open GoPipeline
 
 /-- Generic stateful line loop. -/
@@ -39,6 +40,7 @@ def main (args : List String) : IO UInt32 := do
   | ["c16"] => loop DriverC16.step inp out ()
   | ["c04"] => loop DriverC04.step inp out ()
   | ["c10"] => loop DriverC10.step inp out ()
+  | ["sig"] => loop DriverSig.step inp out ()
   | _ => do IO.eprintln "usage: driver <mode>"; return 2
   out.flush
   return 0
